@@ -460,6 +460,9 @@ class CodeGen:
                     yield asm.Label(handler)
                     yield asm.Metadata('stop block')
                     self.effective_defeat = prev_defeat
+                    # The handler is done with defeat, it must not stay
+                    # installed for later tries and defeat functions.
+                    yield asm.Mov(self.defeat, prev_defeat)
                     yield asm.Mov(self.fp, asm.State(self.try_fp))
                     yield from ap_bubble.value.to(self.ap)
                     yield from self.pop(ap_bubble)
